@@ -24,7 +24,7 @@ def c2(ctx):
 
 def c5(ctx):
     # group_notes as the forward direction: the type filter precedes joining, nothing buffered is lost, a joined head keeps its fields
-    grouping.group_level(ctx, join_guard=False)
+    grouping.group_level(ctx)
     grouping.joiner(ctx)
 
 
